@@ -1,9 +1,11 @@
 (* C16 -- static evaluation is pure, colour-symmetric and bounded.
    Proved for every position: it depends only on the piece sets (+ their redundant unions) and the side to move; switching
    the side to move negates it; castling rights, en-passant square, clocks and key are ignored.
-   Mirror symmetry and the bound below the mate range (C16_full) are decided per run on the engine (metamorphic stream). *)
+   Mirror symmetry (Proofs/EvalMirror.v) and the bound below the mate range (Proofs/EvalBound.v) are proved for every position satisfying
+   the invariant plus two decidable side conditions that are themselves invariants of play (at most 16 men a side; pawns on ranks 2..7),
+   hence for everything reachable from the start position.  The same relations are checked per run on the engine (metamorphic stream). *)
 From Coq Require Import NArith ZArith List.
-From JV Require Import Gen.Consts Model.Chess Model.Eval Model.Abs Proofs.EvalProofs.
+From JV Require Import Gen.Consts Model.Chess Model.Eval Model.Abs Model.SearchChess Model.Sym Proofs.EvalProofs Proofs.LegalInv Proofs.CountProofs Proofs.EvalBound Proofs.EvalReach Proofs.EvalMirror Proofs.ProwProofs Proofs.StartPos.
 Local Open Scope Z_scope.
 
 Theorem C16_pure : forall g1 g2,
@@ -18,8 +20,35 @@ Theorem C16_ignores_rights_ep_clocks_key : forall g e c h f k,
   evaluate (mkGame (bbs g) (wocc g) (bocc g) (aocc g) (white g) e c h f k) = evaluate g.
 Proof. exact evaluate_ignores. Qed.
 
-Definition C16_bound_full : Prop := forall g, wf g = true -> Z.abs (evaluate g) < MATE_BOUND.
+(* colour symmetry: the colour-mirrored position (board flipped top to bottom, colours and mover swapped: EvalMirror.mirror) has the
+   same evaluation -- for every position satisfying the invariant whose pawns stand on ranks 2..7 (prow2; the other halves are in the
+   invariant).  The hypothesis on pawns is needed: the engine's RANK_MASKS table is constant (0xff), which makes the passed-pawn
+   masks asymmetric on the back ranks only (DESIGN.md 7). *)
+Theorem C16_mirror : forall g, legal_inv g -> prow2 g -> evaluate (mirror g) = evaluate g.
+Proof. exact evaluate_mirror_inv. Qed.
+Theorem C16_mirror_from_the_start_position : forall g, chess_reach start_game g -> evaluate (mirror g) = evaluate g.
+Proof. exact evaluate_mirror_from_start. Qed.
+
+(* the bound: strictly inside the range below the mate scores, for every position satisfying the invariant with at most 16 men a
+   side (men16; preserved by every move: Proofs/CountProofs.v) *)
+Theorem C16_bound_full : forall g, legal_inv g -> men16 g -> Z.abs (evaluate g) < MATE_BOUND.
+Proof. exact evaluate_bound_inv. Qed.
+Theorem C16_bound_from_the_start_position : forall g, chess_reach start_game g -> Z.abs (evaluate g) < MATE_BOUND.
+Proof. exact evaluate_bound_from_start. Qed.
+(* the two side conditions are invariants of play and have executable forms *)
+Theorem C16_side_conditions_are_invariants : forall g0 g, legal_inv g0 -> men16 g0 -> prow2 g0 -> chess_reach g0 g -> men16 g /\ prow2 g.
+Proof.
+  intros g0 g L M P R. split; [exact (proj2 (reach_men16 g0 g L M R))|exact (proj2 (reach_prow2 g0 g L P R))].
+Qed.
+Theorem C16_side_conditions_executable : forall g, men16_b g = true -> prow2_b g = true -> men16 g /\ prow2 g.
+Proof. intros g A B. split; [apply men16_b_sound; exact A|apply prow2_b_sound; exact B]. Qed.
 
 Print Assumptions C16_pure.
 Print Assumptions C16_side.
 Print Assumptions C16_ignores_rights_ep_clocks_key.
+Print Assumptions C16_mirror.
+Print Assumptions C16_mirror_from_the_start_position.
+Print Assumptions C16_bound_full.
+Print Assumptions C16_bound_from_the_start_position.
+Print Assumptions C16_side_conditions_are_invariants.
+Print Assumptions C16_side_conditions_executable.
